@@ -182,7 +182,11 @@ def run(ctx, drv):
 
     # ---- other spellings
     for opname in ops_ok:
-        for y in [0, 5, -3, 0.1, -0.0, 1e-300, 1e300, 1e13, -2e-3, math.inf]:
+        # thresholds: short ones, long mantissas (any shortening of the value on the way to float() shows), big ints, random doubles
+        ys = [0, 5, -3, 0.1, -0.0, 1e-300, 1e300, 1e13, -2e-3, math.inf, 1234567, 0.1234567, -98765.4321, 1 / 3, 2 ** 53 - 1, -(10 ** 15 + 1),
+              1.0000000000000002, 123456789.12345679]
+        ys += [rng.uniform(-1e6, 1e6) for _ in range(4)] + [rng.random() * 10.0 ** rng.randrange(-12, 12) for _ in range(4)]
+        for y in ys:
             variants = [("two-arg", lambda: C.Constraint(opname, y)),
                         ("two-arg-str", lambda: C.Constraint(opname, repr(float(y)))),
                         ("copy", lambda: C.Constraint(C.Constraint(opname + repr(float(y))))),
